@@ -76,6 +76,36 @@ def objects(rng, per_vector):
                 yield cls, name, b, obj
 
 
+def bytes_variant(obj):
+    """A deep copy of an attrs object in which every bytearray (at any depth of attrs fields, lists and tuples) is
+    replaced by the equal bytes; None when nothing was replaced."""
+    import copy
+    import attr
+    changed = [False]
+
+    def conv(v, depth=0):
+        if depth > 6:
+            return v
+        if isinstance(v, bytearray):
+            changed[0] = True
+            return bytes(v)
+        if isinstance(v, list):
+            return [conv(x, depth + 1) for x in v]
+        if isinstance(v, tuple):
+            return tuple(conv(x, depth + 1) for x in v)
+        if attr.has(type(v)) and not isinstance(v, type):
+            c = copy.copy(v)
+            for f in attr.fields(type(v)):
+                try:
+                    object.__setattr__(c, f.name, conv(getattr(v, f.name), depth + 1))
+                except Exception:  # pylint: disable=broad-except
+                    pass
+            return c
+        return v
+    res = conv(copy.deepcopy(obj))
+    return res if changed[0] else None
+
+
 def serialisation_failures(cls, name, b, obj):
     for fn in ('as_json', 'as_markdown'):
         if not hasattr(obj, fn):
@@ -96,6 +126,16 @@ def serialisation_failures(cls, name, b, obj):
         try:
             if getattr(obj, fn)() != out:
                 yield fn + '-unstable', '%s gives a different result when called again' % fn
+        except Exception:  # pylint: disable=broad-except
+            pass
+    # an equal object holding bytes where the parser stores bytearray (what a caller constructing the object writes)
+    if hasattr(obj, 'as_json'):
+        try:
+            o3 = bytes_variant(obj)
+            if o3 is not None and o3 == obj:
+                for fn in ('as_json', 'as_markdown'):
+                    if getattr(o3, fn)() != getattr(obj, fn)():
+                        yield fn + '-bytes-vs-bytearray', '%s differs between equal objects holding the same octets as bytes and as bytearray' % fn
         except Exception:  # pylint: disable=broad-except
             pass
     if hasattr(obj, 'compose') and hasattr(obj, 'as_json'):
